@@ -35,6 +35,7 @@ fn main() {
         "c04" => c04::run(&out, seed, thorough),
         "c09" => c09::run(&out, seed, thorough),
         "c09-probe" => c09::probe_main(&args),
+        "c09-tie" => c09::tie_main(&args, &out, seed, thorough),
         "c09-stream" => c09::stream_main(&args, &out, seed, thorough),
         "c12" => c12::run(&out, seed, thorough),
         "c11" => c11::run(&out, seed, thorough),
